@@ -2,6 +2,13 @@
 //! Foreign attributes stay where the user put them.
 use entrait::*;
 
+#[entrait(AttrFnCfgAttr)]
+#[cfg_attr(all(), doc = "M22")]
+#[cfg_attr(any(), doc = "never")]
+fn attr_fn_cfg_attr<D>(deps: &D, a: u8) -> u8 {
+    a
+}
+
 #[entrait(AttrFn)]
 #[doc = "M01"]
 #[must_use = "M02"]
@@ -71,6 +78,8 @@ pub struct AttrTarget;
 #[doc = "M13"]
 impl AttrInvImpl for AttrTarget {
     #[doc = "M14"]
+    #[cfg_attr(all(), doc = "M21")]
+    #[cfg(all())]
     #[once::once]
     pub fn one<D>(deps: &D, #[allow(unused_variables)] a: u8) -> u8 {
         a
